@@ -620,7 +620,7 @@ impl Signature {
         // the key of the signee
         {
             // TODO: this is different for V5
-            serialize_for_hashing(signee, &mut hasher)?;
+            serialize_for_hashing(signee, config.version(), &mut hasher)?;
         }
 
         // the packet content
@@ -708,8 +708,8 @@ impl Signature {
             hasher.update(salt.as_ref())
         }
 
-        serialize_for_hashing(signer, &mut hasher)?; // primary
-        serialize_for_hashing(signee, &mut hasher)?; // subkey
+        serialize_for_hashing(signer, config.version(), &mut hasher)?; // primary
+        serialize_for_hashing(signee, config.version(), &mut hasher)?; // subkey
 
         let len = config.hash_signature_data(&mut hasher)?;
         hasher.update(&config.trailer(len)?);
@@ -761,8 +761,8 @@ impl Signature {
             hasher.update(salt.as_ref())
         }
 
-        serialize_for_hashing(signee, &mut hasher)?; // primary
-        serialize_for_hashing(signer, &mut hasher)?; // subkey
+        serialize_for_hashing(signee, config.version(), &mut hasher)?; // primary
+        serialize_for_hashing(signer, config.version(), &mut hasher)?; // subkey
 
         let len = config.hash_signature_data(&mut hasher)?;
         hasher.update(&config.trailer(len)?);
@@ -828,7 +828,7 @@ impl Signature {
             hasher.update(salt.as_ref())
         }
 
-        serialize_for_hashing(signee, &mut hasher)?;
+        serialize_for_hashing(signee, config.version(), &mut hasher)?;
 
         let len = config.hash_signature_data(&mut hasher)?;
         hasher.update(&config.trailer(len)?);
@@ -1721,22 +1721,24 @@ impl PacketTrait for Signature {
 
 pub(super) fn serialize_for_hashing<K: KeyDetails + Serialize>(
     key: &K,
+    signature_version: SignatureVersion,
     hasher: &mut Box<dyn DynDigest + Send>,
 ) -> Result<()> {
     let key_len = key.write_len();
 
     let mut writer = WriteHasher(hasher);
 
-    // old style packet header for the key
-    match key.version() {
-        KeyVersion::V2 | KeyVersion::V3 | KeyVersion::V4 => {
+    // old style packet header for the key, selected by the version of the signature
+    // (not of the key: a third-party signature can be made over a key of another version)
+    match signature_version {
+        SignatureVersion::V2 | SignatureVersion::V3 | SignatureVersion::V4 => {
             // When a v4 signature is made over a key, the hash data starts with the octet 0x99,
             // followed by a two-octet length of the key, and then the body of the key packet.
             writer.write_u8(0x99)?;
             writer.write_u16::<BigEndian>(key_len.try_into()?)?;
         }
 
-        KeyVersion::V6 => {
+        SignatureVersion::V6 => {
             // When a v6 signature is made over a key, the hash data starts with the salt
             // [NOTE: the salt is hashed in packet/signature/config.rs],
 
@@ -1746,7 +1748,7 @@ pub(super) fn serialize_for_hashing<K: KeyDetails + Serialize>(
             writer.write_u32::<BigEndian>(key_len.try_into()?)?;
         }
 
-        v => unimplemented_err!("key version {:?}", v),
+        v => unimplemented_err!("signature version {:?}", v),
     }
 
     key.to_writer(&mut writer)?;
